@@ -16,6 +16,7 @@ import (
 	"encoding/json"
 	"fmt"
 	"os"
+	"regexp"
 	"sort"
 	"strings"
 	"sync"
@@ -34,6 +35,7 @@ type Case struct {
 	Mpm     bool
 	Src     string
 	Plans   []Plan
+	RaceRun bool     `json:",omitempty"` // one more compilation by the race-detector build of the tool
 	InVals  []uint64 // constant value offered on the external input with global id i
 	// Strict: judge the recorded-finding classes too (files under replays/C12/known/). When false a
 	// failure whose recorded precondition holds for the case is counted as Excluded.
@@ -131,6 +133,7 @@ func genCase(o GenOpts) func(t *rapid.T) Case {
 		// (the report is computed before the machine is built: it matters most with -mpm -save-bondmachine)
 		c.ShowReq = rapid.IntRange(0, 7).Draw(t, "showreq") < map[bool]int{true: 4, false: 1}[c.Mpm]
 		c.Plans = genPlans(t)
+		c.RaceRun = rapid.Bool().Draw(t, "racerun")
 		c.HDL = rapid.Bool().Draw(t, "hdl1") && rapid.Bool().Draw(t, "hdl2") && rapid.Bool().Draw(t, "hdl3") // one in eight of the faithful machines
 		c.InVals = make([]uint64, nInVals)
 		for i := firstInGid; i < nInVals; i++ {
@@ -334,6 +337,29 @@ func prop(c Case) pbt.Outcome {
 		}
 	}
 	lab(fmt.Sprintf("plans-completed=%d", len(done)))
+	if c.RaceRun {
+		// the same compilation by the race-detector build: a report is a dependence on the schedule at its
+		// cause; a deadline hit by this (several times slower) binary says nothing
+		rp := c.Plans[done[0]]
+		rp.Race, rp.GoMaxProcs = true, 4
+		rr := runOnce(c.Src, c.Rsize, c.Mpm, rp, 3*hardTimeout, false)
+		switch rr.Status {
+		case "race":
+			return finish(pbt.Outcome{Fail: pbt.Failf("race:"+raceFrames(rr.Dump), "the Go race detector reports a data race inside the compiler (GOMAXPROCS=4 sched=%q)\n--- source\n%s--- report\n%s", rp.Sched, c.Src, dumpHead(rr.Dump))})
+		case "ok", "rejected", "crash":
+			lab("race-run:completed")
+			if rr.Fingerprint() != base.Fingerprint() {
+				if len(facts.GoMultiValueArg) > 0 && onlyAsmDiffers(base, rr) {
+					lab("class:go-two-or-more-value-args")
+					return known(sigGoArgs, pbt.Failf(sigGoArgs, "the assembly bondgo writes differs between two runs of the compiler on a program with `go f(a, b, …)` (two or more by-value arguments: %v); status, stdout and machine are equal\n--- source\n%s--- plan %d\n%s--- race build\n%s",
+						facts.GoMultiValueArg, c.Src, done[0], base.Fingerprint(), rr.Fingerprint()))
+				}
+				return finish(pbt.Outcome{Fail: pbt.Failf(sigNondet, "compiler output differs between plan %d and the run of the race-detector build\n--- source\n%s--- plan %d\n%s--- race build\n%s", done[0], c.Src, done[0], base.Fingerprint(), rr.Fingerprint())})
+			}
+		default:
+			lab("race-run:inconclusive:" + rr.Status)
+		}
+	}
 	if c.ShowReq {
 		// -show-requirements is a report: the same compilation without it must write the same files
 		lab("flag:show-requirements")
@@ -1795,4 +1821,17 @@ func main() {
 	if err != nil || r.Routines[0].Stopped != "blocked" || fmt.Sprint(r.Routines[0].Streams[0]) != "[1]" {
 		t.Errorf("lonely receiver: err=%v %+v", err, r.Routines)
 	}
+}
+
+// raceFrames names the first two functions of the tree under test in a race report (the signature).
+func raceFrames(rep string) string {
+	m := regexp.MustCompile(`(?m)^  github\.com/BondMachineHQ/BondMachine/(?:pkg/)?(\S+)\(\)`).FindAllStringSubmatch(rep, 2)
+	var fs []string
+	for _, x := range m {
+		fs = append(fs, x[1])
+	}
+	if len(fs) == 0 {
+		return "outside-the-tree"
+	}
+	return strings.Join(fs, ":")
 }
